@@ -12,6 +12,7 @@ REQUIRED = ["DaeVerif.C15.Props." + n for n in (
     "admitting_domain_spec",
     "select_ok_of_selectable",
     "tolerance_invariant_all_sample_histories",
+    "switch_only_when_all_sample_histories",
     "selection_invariants_survive_reload",
     "captured_fallback_is_a_member",
     "restore_onto_unrecorded_dialer_is_ok",
@@ -104,7 +105,9 @@ def compare(op, im, mo):
 def run(ctx):
     ctx.trusted += [
         "time.Duration arithmetic modelled over unbounded Int (no int64 overflow)",
-        "the harness drives dialers through markAvailable / markUnavailableInternal / ReportAvailableTraffic (the thresholds deciding WHEN a node is reported dead are C16's subject); recovery-confirmation timers are disabled (cancelled dialer context)",
+        "the harness drives dialers through markAvailable, the real Dialer.Check / check(cycle) with a stub CheckFunc, markUnavailableInternal, ReportAvailableTraffic, RestoreHealthSnapshot, EnsureReloadSelectionFloor and, in package control, routeDial (the thresholds deciding WHEN a node is reported dead are C16's subject: the alive value told is echoed from the real code); recovery-confirmation timers are disabled (cancelled dialer context); backoff levels are set through the shim",
+        "the op streams are not a function of the seed (wall-clock probe latencies read back into the ops, 1 s CachedTimeNano ticker behind backoff penalties, fastrand feeding the generator): verdict unaffected, counters vary slightly, replays carry the scenario's op text",
+        "ControlPlane for chooseProxyDialer/routeDial is a literal whose parts come from real constructors (the production constructor loads eBPF objects); all outbound slots hold the group under test",
         "locking / concurrent interleavings inside AliveDialerSet and DialerGroup are not modelled (each call is atomic in the model)",
         "fastrand: only the set of possible answers of the random policy is compared, not their distribution",
     ]
@@ -168,7 +171,8 @@ def run(ctx):
             ctx.report(f"implementation differs from proved model at {label} line {ln} ({op}): impl `{im[:400]}` model `{mo[:400]}`",
                        {"stream": label, "line": ln, "op": op, "impl": im, "model": mo,
                         "scenario_ops": lo[max(0, start - 1):ln],
-                        "replay": "VERIF_SEED=%d ./check C15 %s" % (ctx.seed, ctx.tier)})
+                        "replay": "feed scenario_ops to lean/.lake/build/bin/c15drv for the model's answers; "
+                                  "VERIF_SEED=%d ./check C15 %s regenerates a similar (not identical) stream" % (ctx.seed, ctx.tier)})
         n_eval += len(lo)
         # property-level oracle on the implementation side: inside the theorems' hypotheses the
         # three invariant bits printed by the real code must all be 1
@@ -224,7 +228,7 @@ def run(ctx):
         if not ctx.violations and not ctx.proof_failures:
             return 2   # nothing wrong was seen, but too little was looked at
     ctx.cov["input_distribution_dial"] = json.load(open(os.path.join(ctx.out, "c15dial.stats.json")))["counters"]
-    ctx.assumptions = ["histories are generated (seeded): 0..12 nodes, tolerance 0..1000 ns, latencies/offsets boundary-heavy small integers; "
+    ctx.assumptions = ["histories are generated: 0..12 nodes, 1-2 groups sharing dialers, tolerance 0..1000 ns plus negative / 2^40 / seconds-scale values, latencies/offsets boundary-heavy (ties frequent), backoff levels 0..6; "
                        "stream c15oob additionally places one node's offset at/around time.Hour (the former sentinel; inside the theorems since fix addc261)",
                        "theorems with suffix _partial (tolerance clauses) assume `mono`: a dialer that has reported a latency under the current policy keeps reporting one (true of LatenciesN / moving average with samples >= 1 ns: measurement_once_always_for_positive_samples; broken only by restoring an emptier health snapshot); no bound on latencies/offsets/tolerance is assumed"]
     return ctx.finish(rule="one evaluation = one op line (event, policy switch or selection) answered by the real code and by the model; "
